@@ -71,9 +71,9 @@ def body(com):
 
 
 def valid(com):
-    """the inserted text really is ONE comment of its style (quote-free ASCII, markers where the style puts them)"""
+    """the inserted text really is ONE comment of its style (quote-free, markers where the style puts them)"""
     b = body(com)
-    if any(q in b for q in "'\"`\\\t\r") or any(ord(ch) > 126 for ch in b):
+    if any(q in b for q in "'\"`\\\t\r") or any(ord(ch) == 127 for ch in b):      # non-ASCII text is text like any other
         return False
     k = com["kind"]
     if k in ("dash", "hash", "tdash"):
@@ -175,6 +175,10 @@ def split_result(res):
 
 
 def _norm(s):
+    # non-ASCII characters are reported as escape sequences (the input goes through unicode_escape: C07's business): compare the
+    # ASCII skeleton of the text - drop the escapes from what is reported and the non-ASCII characters from what was written
+    s = re.sub(r"\\+(u[0-9a-fA-F]{4}|x[0-9a-fA-F]{2}|0[0-9a-fA-F]{2})", "", s)
+    s = "".join(c for c in s if ord(c) < 128)
     return re.sub(r",+", ",", re.sub(r"\s+", "", s))
 
 
@@ -277,13 +281,14 @@ START_TEXTS = [
     "DELETE FROM t;", "Delete this later", "COMMENT ON TABLE t IS gone", "PRIMARY KEY (id),", "CONSTRAINT c1 UNIQUE (id)", ");", ") ;", "(", ")", ",", ";",
     "id int,", "zz int NOT NULL,", "zz int", "", " ", "-", "*", "=", "a=b", ",,", "( , ; )", "TODO: drop; recreate (see #42), then ALTER",
     "STORED AS TEXTFILE", "INCREMENT BY 7", "CREATE SEQUENCE sq START 3;", "REFERENCES other (id)", "NOT NULL DEFAULT 5", "*** section ***", "- - - - -", "=====", "#", "# hash", "%$@!?&|~^<>[]{}+.:",
+    "na\u00efve \u2014 caf\u00e9", "a \u2013 b \u2014 c", "\u2014", "see \u00a7 4 \u2014 keys",
 ]
 WORDS = ["CREATE TABLE", "ALTER TABLE", "DROP TABLE", "SET", "GO", "USE", "INSERT INTO", "GRANT", "DELETE FROM", "Use", "go", "Insert", "PRIMARY KEY",
          "NOT NULL", "DEFAULT", "REFERENCES", "UNIQUE", "CHECK", "CONSTRAINT", "FOREIGN KEY", "COMMENT", "INDEX", "CREATE SEQUENCE", "INCREMENT BY",
          "STORED AS", "LOCATION", "PARTITIONED BY", "AS", "ON", "int", "varchar(10)", "decimal(10,2)", "NULL", "SELECT", "FROM", "WITH", "TBLPROPERTIES",
          "ENGINE", "COLLATE", "CLUSTER BY", "OPTIONS", "LIKE", "CLONE", "TABLESPACE", "IF NOT EXISTS", "TEMPORARY", "EXTERNAL", "ENUM", "DOMAIN", "START WITH",
          "id", "customer_id", "note", "x", "orders", "shop.orders", "t1", "zz", "todo", "fixme", "v2", "see", "ticket", "the", "old", "key", "42", "3.14",
-         ",", "(", ")", ";", "=", ".", ":", "*", "/", "-", "<", ">", "%", "!", "?", "@", "[", "]", "{", "}", "|", "+", "&", "#", "( , ; )", ");", "(a, b)", "a=b"]
+         ",", "(", ")", ";", "=", ".", ":", "*", "/", "-", "<", ">", "%", "!", "?", "@", "[", "]", "{", "}", "|", "+", "&", "#", "( , ; )", ");", "(a, b)", "a=b", "\u2014", "\u2013", "caf\u00e9"]
 MARKER_TEXTS = ["--", "/*", "*/", "---", "/**", "--/*", "-- x /* y", "/* x -- y", "x--y", "x/*y", "x*/y"]
 
 
